@@ -225,6 +225,116 @@ def c08(res, tier, seed, deep):
     return "positions from play plus all positions 1-3 plies below a sample (transposing move orders), and one-component variants (counters, every subset of the castling rights, en-passant target dropped, side swapped; only legal variants count); for 3 hasher seeds every pair is checked: equal rule-relevant key <=> equal hash; and the hash is compared with the Lean model drawing its keys from the ChaCha8 model"
 
 
+def mirror_fen(f):
+    p = f.split(" ")
+    rows = p[0].split("/")[::-1]
+    board = "/".join("".join(ch.lower() if ch.isupper() else ch.upper() for ch in r) for r in rows)
+    side = "b" if p[1] == "w" else "w"
+    rights = "".join(ch.lower() if ch.isupper() else ch.upper() for ch in p[2]) if p[2] != "-" else "-"
+    if rights != "-":
+        rights = "".join(ch for ch in "KQkq" if ch in rights)
+    ep = "-" if p[3] == "-" else p[3][0] + str(9 - int(p[3][1]))
+    return " ".join([board, side, rights, ep] + p[4:])
+
+
+def sv_eval(impl):
+    try:
+        v = int(impl)
+    except ValueError:
+        return impl
+    return "N" if -10000 < v < 10000 else f"T{v}"
+
+
+def kxk_positions(rnd, n):
+    """endgame placements with few men (legal ones are selected by the spec): mates and stalemates
+    are frequent here, in particular checked kings on slider rays"""
+    out = []
+    for _ in range(n):
+        men = rnd.choice(["KQk", "KRk", "KQkr", "KRRk", "KBNk", "KPk", "KQkp", "KRkb", "kqK", "krK", "kqKR", "KQQk", "KRkn", "KRPkp"])
+        cells = {}
+        edge_bias = rnd.random() < 0.6
+        for ch in men:
+            while True:
+                sq = rnd.randrange(64)
+                if ch in "kK" and edge_bias and rnd.random() < 0.8:
+                    sq = rnd.choice([0, 1, 2, 5, 6, 7, 8, 15, 16, 23, 40, 47, 48, 55, 56, 57, 58, 61, 62, 63, 3, 4, 59, 60, 24, 31, 32, 39])
+                if sq not in cells and not (ch in "pP" and sq // 8 in (0, 7)):
+                    cells[sq] = ch
+                    break
+        rows = []
+        for r in range(7, -1, -1):
+            row, run = "", 0
+            for f in range(8):
+                c = cells.get(r * 8 + f)
+                if c is None:
+                    run += 1
+                else:
+                    row += (str(run) if run else "") + c
+                    run = 0
+            rows.append(row + (str(run) if run else ""))
+        out.append("/".join(rows) + f" {rnd.choice('wb')} - - 0 1")
+    return out
+
+
+def c05(res, tier, seed, deep):
+    n = 20000 if tier == "thorough" else (5000 if deep else 1500)
+    rnd = random.Random(seed)
+    fens = positions(seed + 13, n) + kxk_positions(rnd, n * 2)
+    reqs = []
+    for f in fens:
+        ply = rnd.choice([0, 1, 2, 3, 5, 9, 10, 11, 17, 40])
+        reqs.append(f"eval w {ply} {f}")
+        reqs.append(f"eval b {ply} {f}")
+    # monotonicity of the mate score in ply, on a known mate
+    for ply in range(0, 25):
+        reqs.append(f"eval w {ply} 7k/5Q2/6K1/8/8/8/8/8 b - - 0 1".replace("5Q2", "6Q1"))
+    impl, rc, err = wee.run_lines(wee.harness_path(), reqs)
+    drv, rc2, err2 = wee.run_driver(reqs)
+    if len(impl) != len(reqs):
+        res.broken.append("harness died on eval requests")
+        impl += ["<no-output>"] * (len(reqs) - len(impl))
+    for req, i, (m, sp) in zip(reqs, impl, drv):
+        res.add(req, i, m, sp, (lambda x, sp=sp: ("T" + x) if sp.startswith("T") else sv_eval(x)))
+        if sp.startswith("T"):
+            res.tag("terminal_positions")
+    return "legal positions from play plus random few-men endgame placements biased to kings on edges (mates, stalemates, checked kings on slider rays); both perspectives, plies 0..40; spec: exact mate value / 0 for positions without legal moves per the mailbox rules, non-terminal otherwise; non-legal placements are ignored by the spec"
+
+
+def c13(res, tier, seed, deep):
+    n = 12000 if tier == "thorough" else (3000 if deep else 1000)
+    rnd = random.Random(seed)
+    fens = positions(seed + 15, n) + kxk_positions(rnd, n)
+    reqs = []
+    for f in fens:
+        ply = rnd.choice([0, 1, 4, 12])
+        m = mirror_fen(f)
+        reqs += [f"eval w {ply} {f}", f"eval b {ply} {f}", f"eval w {ply} {m}", f"eval b {ply} {m}"]
+    impl, rc, err = wee.run_lines(wee.harness_path(), reqs)
+    drv, rc2, err2 = wee.run_driver(reqs)
+    if len(impl) != len(reqs):
+        res.broken.append("harness died on eval requests")
+        impl += ["<no-output>"] * (len(reqs) - len(impl))
+    for i in range(0, len(reqs), 4):
+        w, b, mw, mb = impl[i:i + 4]
+        legal = drv[i][1] != "-"
+        def neg(x):
+            try:
+                return str(-int(x))
+            except ValueError:
+                return "not-a-number:" + x
+        # spec: eval(p, White) = -eval(p, Black); eval(mirror p, ¬c) = eval(p, c)
+        exp = ["sym"] * 4 if legal else ["-"] * 4
+        views = [
+            (lambda x, w=w, b=b: "sym" if w == neg(b) else f"white={w} black={b}"),
+            (lambda x, w=w, b=b: "sym" if w == neg(b) else f"white={w} black={b}"),
+            (lambda x, b=b, mw=mw: "sym" if mw == b else f"eval(mirror,White)={mw} eval(p,Black)={b}"),
+            (lambda x, w=w, mb=mb: "sym" if mb == w else f"eval(mirror,Black)={mb} eval(p,White)={w}"),
+        ]
+        for j in range(4):
+            res.add(reqs[i + j], impl[i + j], drv[i + j][0], exp[j], views[j])
+    return "legal positions from play and few-men endgames (terminal ones included); for each: both perspectives on the position and on its mirror image (ranks flipped, colours, side to move, castling rights and en-passant square swapped); spec: white = -black and mirror equality, exactly"
+
+
 def ray_mask(sq_, dirs):
     m = 0
     f0, r0 = sq_ % 8, sq_ // 8
@@ -603,6 +713,8 @@ def cbor_ok(tok, raw):
 CHECKS = {
     "C01": (c01, ["movegen", "moves", "state", "board", "attacks", "common"]),
     "C02": (c02, ["state", "moves", "board", "movegen"]),
+    "C05": (c05, ["eval", "eval_squares", "eval_worths", "eval_edge", "eval_pawns", "board"]),
+    "C13": (c13, ["eval", "eval_squares", "eval_worths", "eval_edge", "eval_pawns"]),
     "C08": (c08, ["hasher", "state", "board"]),
     "C09": (c09, ["attacks", "common", "board"]),
     "C10": (c10, ["board", "state", "attacks"]),
